@@ -76,7 +76,7 @@ func runSelfTestN(r *core.Run, module, cfg string, bases []*core.Trace, muts []m
 			r.Break("binding self-test: mutant %q of a recorded trace was accepted by %s without any deviation", names[i], module)
 		}
 	}
-	r.Extra["binding_selftest_"+module] = fmt.Sprintf("%d of %d mutants noticed", okN, len(traces))
+	r.SetExtra("binding_selftest_"+module, fmt.Sprintf("%d of %d mutants noticed", okN, len(traces)))
 	os_RemoveAll(tmp.Scratch)
 }
 
@@ -274,7 +274,7 @@ func judgeWriter(r *core.Run, traces []*core.Trace, mine ...string) {
 	if len(ws) == 0 {
 		return
 	}
-	r.Extra["writer_traces"] = map[string]interface{}{"traces": len(ws), "events": n}
+	r.SetExtra("writer_traces", map[string]interface{}{"traces": len(ws), "events": n})
 	r.AddEvals(int64(n))
 	own := map[string]bool{r.Prop: true}
 	for _, m := range mine {
